@@ -966,6 +966,10 @@ def run(chk: Check, eng: Engine) -> None:
     chk.rule("R02-c", "every handler around spec-code evaluation in a hard constraint's fitness() records a failure on all normal paths", floor=6)
     chk.rule("R02-d", "every value yielded by the COMPLETE-mode pipeline originates from an evaluator yield", floor=8)
     chk.rule("R02-e", "best-effort padding only under the best_effort setting", floor=2)
+    chk.rule("R02-l", "the namespace a constraint is evaluated in is one mapping in which the variables bound for this evaluation override the spec's globals "
+             "(otherwise the search judges another expression than the one written)", floor=4)
+    from .c08 import single_namespace_rule
+    single_namespace_rule(chk, eng, "R02-l")
     chk.not_decided += ["that fitness 1.0 coincides with truthiness of arbitrary user expressions", "cache independence (C11)",
                         "protocol-mode emissions (C20)"]
     rule_a(chk, eng)
@@ -985,6 +989,7 @@ _ALG = "src/fandango/evolution/algorithm.py"
 _POP = "src/fandango/evolution/population.py"
 _API = "src/fandango/api.py"
 MUTANTS = [
+    M("globals-override-bound-variables", "src/fandango/constraints/constraint.py", "        return eval(expression, {**global_variables, **local_variables})\n", "        return eval(expression, dict(local_variables) | global_variables)\n", "R02-l"),
     M("command-line-constraints-only-with-f", "src/fandango/cli/commands.py", "        grammar, constraints = _default_content_with_constraints(args)\n", "        grammar, constraints = DEFAULT_FAN_CONTENT\n", "R02-k", count=3),
     M("item-selector-skips-missing-index", "src/fandango/language/search.py", "        return list(\n            map(\n                Tree,\n                [\n                    t.__getitem__(self.slices)\n                    for base in bases\n                    for t in base.get_trees()\n                ],\n            )\n        )\n",
       "        items = []\n        for base in bases:\n            for t in base.get_trees():\n                try:\n                    items.append(t.__getitem__(self.slices))\n                except IndexError:\n                    continue\n        return list(map(Tree, items))\n", "R02-j"),
